@@ -22,7 +22,7 @@ ASPECT = "C15"
 def shards(tier):
     if tier == "quick":
         return [{"label": "hist%d" % i, "n": 800} for i in range(12)]
-    return [{"label": "hist%d" % i, "n": 20000} for i in range(16)]
+    return [{"label": "hist%d" % i, "n": 30000} for i in range(16)]
 
 
 def run_shard(ctx):
